@@ -151,6 +151,23 @@ def run_pairs(out, rnd):
                      lambda c: "one bridge, datagrams with model codes %s" % [x[148:152] for x in c["d"].split("|")], sample=lambda c: c["d"][:60])
 
 
+def run_then_genuine(out, rnd, junk):
+    """ONE bridge: a datagram that is to be ignored (or warned about), then genuine broadcasts - what is ignored is ignored QUIETLY: the
+    bridge goes on listening"""
+    caps = [c for c, m in zip(c05.captures(), lib.run_model([lib.req("bcast", c) for c in c05.captures()])) if "|" in m][:3]
+    ex = expected(junk)
+    async def go():
+        res = []
+        for j in junk:
+            log, nh, nw, complete = await world.feed_bridge(1, [(0, j)] + [(0, c) for c in caps], (), c05.show, sentinel, serial=True)
+            res.append("%d genuine broadcasts delivered afterwards%s" % (len(log), "" if complete else " (the barrier frame was lost too)"))
+        return res
+    io = asyncio.run(go())
+    keep = [k for k, e in enumerate(ex) if e in ("ignored", "warned")]
+    lib.differential(out, "ignored-datagram-then-genuine-broadcasts-through-one-bridge", [{"d": junk[k].hex()} for k in keep], [io[k] for k in keep], None,
+                     ["%d genuine broadcasts delivered afterwards" % len(caps)] * len(keep), describe, sample=describe, classify=lambda c, i: "then-genuine/" + i[:2])
+
+
 def run(tier, rnd, out):
     corpus = lib.load_corpus("C06")
     if corpus: run_direct(out, "corpus", [bytes.fromhex(c["d"]) for c in corpus])
@@ -162,7 +179,8 @@ def run(tier, rnd, out):
     finally: lg.setLevel(old); lg.removeHandler(h)
     longer = [c + world.rand_bytes(rnd, k) for c in c05.captures() for k in (1, 2, 3, 4, 40, 300, 1000)]
     longer += [b"\xfe\xf0" + world.rand_bytes(rnd, n - 2) for n in (169, 170, 200, 256, 336, 400, 1400)]
-    run_bridge(out, "through-a-running-bridge", rnd.sample(cs, 60 if tier == "quick" else 600) + longer)
+    run_bridge(out, "through-a-running-bridge", [b"", b"\0", b"\xfe", b"\xfe\xf0"] + rnd.sample(cs, 60 if tier == "quick" else 600) + longer)
+    run_then_genuine(out, rnd, [b"", b"\0", b"\xfe\xf0", b"\xfe\xf0" + bytes(163), world.rand_bytes(rnd, 165), world.rand_bytes(rnd, 1400)] + rnd.sample(cs, 10 if tier == "quick" else 200))
     run_pairs(out, rnd)
     out.exhaustive = tier == "thorough"
     out.notes.append("thorough enumerates all 65536 model codes on each accepted length")
